@@ -1,24 +1,27 @@
 import WV.Model.C01
 import WV.Proofs.C01
 import WV.Proofs.C01_Toy
+import WV.Proofs.C01_Refused
 
 /-!
 C01 — property theorems.  `C : Crypto` is arbitrary; `I : C.Ideal` are the ideal properties of
 SPAKE2 / HKDF / SHA-256 / SecretBox / NFC (hypotheses, satisfied by the toy instance: `sampleIdeal`).
 All statements are about `WV.C01.run` / `gotCode` / `orderGotMessage` / `deriveKey`, the functions
 the driver executes, over the generated Key/_SortedKey/Order/Receive/Send/Boss tables.
+
+Strings from the application (code, appid, purpose) are Python `str`s = lists of code points
+(`PyStr`), which may hold unpaired surrogates.  `util.to_bytes` is NFC followed by *strict* UTF-8
+(`utf8enc`, a concrete function: defined exactly on the `encodable` strings — `utf8enc_defined_iff` —
+and injective — `utf8_strict_injective`, both proved, not assumed).  The agreement theorems are stated
+for `encodable` codes and appids; what happens otherwise is `unencodable_code_refused` /
+`refused_shares_nothing_ever` (the code is refused with UnicodeEncodeError and that client never holds,
+reports or publishes anything) and `unencodable_purpose_refused`.
 -/
 namespace WV.Props.C01
 open WV WV.Gen WV.C01
 
-/-- the PAKE message (mailbox body) a client with this configuration and code publishes -/
-abbrev pakeOf (C : Crypto) (cfg : Cfg) (code : String) : Bytes := myPake C cfg code
-
-/-- One side of a two-party run: it learns its code and the peer's PAKE message, in either order
-    (`codeFirst = false` is the `input_code` / slow-typist path through Key.S01). -/
-def sideRun (C : Crypto) (cfg : Cfg) (code : String) (peer : Cfg) (peerCode : String) (codeFirst : Bool) : Res :=
-  let m : Msg := ⟨peer.side, "pake", pakeOf C peer peerCode⟩
-  if codeFirst then run C cfg [.code code, .rx m] init else run C cfg [.rx m, .code code] init
+/-! `pakeOf` (the PAKE body a client publishes, `none` when its code was refused) and `sideRun` (one
+    side of a two-party run, both arrival orders) are defined in `WV.Proofs.C01`. -/
 
 /-- the hand-written call shapes of all modelled output bodies equal the skeletons extracted from
     the working tree (order of `B.got_key / M.add_message / R.got_key`, of `SK.got_code / SK.got_pake`,
@@ -28,29 +31,31 @@ theorem skeleton_agrees : shapeAgrees = true := by decide +kernel
 /-- Both arrival orders feed exactly `(to_bytes(code), to_bytes(appid))` and the peer's element to
     SPAKE2, and end in the same state (same key in Wormhole, Receive; same events in the same
     order) — the stash path differs only in the remembered stash. -/
-theorem stash_then_code_eq_code_then_pake (C : Crypto) (cfg : Cfg) (code peer : String) (m key : Bytes)
-    (h : C.pakeFinish (toBytes C code) (toBytes C cfg.appid) cfg.rnd m = some key) :
-    run C cfg [.code code, .rx ⟨peer, "pake", pakeBody m⟩] init = (stKey C cfg code key, none) ∧
+theorem stash_then_code_eq_code_then_pake (C : Crypto) (cfg : Cfg) (code : PyStr) (pw idS : Bytes) (peer : String)
+    (m key : Bytes) (hc : toBytes C code = some pw) (ha : toBytes C cfg.appid = some idS)
+    (h : C.pakeFinish pw idS cfg.rnd m = some key) :
+    run C cfg [.code code, .rx ⟨peer, "pake", pakeBody m⟩] init = (stKey C cfg code pw idS key, none) ∧
     run C cfg [.rx ⟨peer, "pake", pakeBody m⟩, .code code] init
-      = ({ stKey C cfg code key with stash := some (pakeBody m) }, none) := by
+      = ({ stKey C cfg code pw idS key with stash := some (pakeBody m) }, none) := by
   constructor
-  · simp only [run, seqM, envStep, gotCode_init, rxPake_stCode C cfg code peer m key h]
-  · simp only [run, seqM, envStep, rxPake_init, gotCode_stashed C cfg code m key h]
+  · simp only [run, seqM, envStep, gotCode_init C cfg code pw idS hc ha, rxPake_stCode C cfg code pw idS peer m key h]
+  · simp only [run, seqM, envStep, rxPake_init, gotCode_stashed C cfg code pw idS m key hc ha h]
 
 /-- a PAKE message is hostile for this client when its body carries no usable element (not JSON,
     not an object, no `pake_v1`, not hex) or SPAKE2 refuses the element (malformed, not on the
     curve, wrong side byte, our own element reflected) -/
-def HostilePake (C : Crypto) (cfg : Cfg) (code : String) (body : Bytes) : Prop :=
+def HostilePake (C : Crypto) (cfg : Cfg) (pw idS : Bytes) (body : Bytes) : Prop :=
   parsePake body = none ∨
-  ∃ m, body = pakeBody m ∧ C.pakeFinish (toBytes C code) (toBytes C cfg.appid) cfg.rnd m = none
+  ∃ m, body = pakeBody m ∧ C.pakeFinish pw idS cfg.rnd m = none
 
 /-- **hostile_pake_scares.**  A hostile PAKE message is a "codes differ / stranger" case: for both
     arrival orders and every later schedule of peer messages (with any body) and application
     sends, nothing raises, no key is ever reported or kept (`derive_key` keeps raising NoKeyError),
     no verifier / versions / message is delivered, `T.close` is only ever called with mood "scary",
     and the side closes with exactly WrongPasswordError. -/
-theorem hostile_pake_scares (C : Crypto) (cfg : Cfg) (code peer : String) (body : Bytes)
-    (h : HostilePake C cfg code body) (codeFirst : Bool) (later : List Env) (hl : ∀ e ∈ later, e.later) :
+theorem hostile_pake_scares (C : Crypto) (cfg : Cfg) (code : PyStr) (pw idS : Bytes) (peer : String) (body : Bytes)
+    (hc : toBytes C code = some pw) (ha : toBytes C cfg.appid = some idS)
+    (h : HostilePake C cfg pw idS body) (codeFirst : Bool) (later : List Env) (hl : ∀ e ∈ later, e.later) :
     ∃ s', run C cfg ((if codeFirst then [.code code, .rx ⟨peer, "pake", body⟩]
                       else [.rx ⟨peer, "pake", body⟩, .code code]) ++ later) init = (s', none) ∧
       s'.wkey = none ∧ (∀ k, Ev.wKey k ∉ s'.out) ∧ (∀ e ∈ s'.out, e.delivers = false) ∧
@@ -63,130 +68,252 @@ theorem hostile_pake_scares (C : Crypto) (cfg : Cfg) (code peer : String) (body 
   -- the state after the two-event prefix
   have hpre : ∃ skst x, run C cfg (if codeFirst then [.code code, .rx ⟨peer, "pake", body⟩]
                       else [.rx ⟨peer, "pake", body⟩, .code code]) init
-        = ({ stHostile C cfg code skst with stash := x }, none) := by
+        = ({ stHostile C cfg code pw idS skst with stash := x }, none) := by
     rcases h with h | ⟨m, rfl, h⟩
     · refine ⟨.S3_scared, if codeFirst then none else some body, ?_⟩
       cases codeFirst
       · simp only [Bool.false_eq_true, if_false, run, seqM, envStep, rxPake_init,
-          gotCode_stashed_unusable C cfg code body h]
-      · simp only [if_true, run, seqM, envStep, gotCode_init, rxPake_stCode_unusable C cfg code peer body h]
+          gotCode_stashed_unusable C cfg code pw idS body hc ha h]
+      · simp only [if_true, run, seqM, envStep, gotCode_init C cfg code pw idS hc ha,
+          rxPake_stCode_unusable C cfg code pw idS peer body h]
         rfl
     · refine ⟨.S2_know_key, if codeFirst then none else some (pakeBody m), ?_⟩
       cases codeFirst
       · simp only [Bool.false_eq_true, if_false, run, seqM, envStep, rxPake_init,
-          gotCode_stashed_refused C cfg code m h]
-      · simp only [if_true, run, seqM, envStep, gotCode_init, rxPake_stCode_refused C cfg code peer m h]
+          gotCode_stashed_refused C cfg code pw idS m hc ha h]
+      · simp only [if_true, run, seqM, envStep, gotCode_init C cfg code pw idS hc ha,
+          rxPake_stCode_refused C cfg code pw idS peer m h]
         rfl
   obtain ⟨skst, x, hp⟩ := hpre
-  obtain ⟨s', e, r⟩ := run_refused C cfg later { stHostile C cfg code skst with stash := x }
-    (stHostile_refused C cfg code skst x) rfl hl
+  obtain ⟨s', e, r⟩ := run_refused C cfg later { stHostile C cfg code pw idS skst with stash := x }
+    (stHostile_refused C cfg code pw idS skst x) rfl hl
   obtain ⟨c1, c2, _, c4⟩ := refused_closed C cfg s' r
   refine ⟨s', ?_, r.wkey, r.noKey, r.quiet, r.b, r.res, r.hasScary, r.scary, ?_, c1, c2, c4⟩
   · rw [run_append, hp]; exact e
   · intro p n; simp [deriveKey, r.wkey]
 
 /-- the hypothesis is met by the toy instance: a body without the element tag, and a reflected element -/
-example : HostilePake (toyCrypto sampleNfc) ⟨"s0", "app", [1], [0]⟩ "4-a" [2] := Or.inl rfl
-example : HostilePake (toyCrypto sampleNfc) ⟨"s0", "app", [1], [0]⟩ "4-a"
-    (myPake (toyCrypto sampleNfc) ⟨"s0", "app", [1], [0]⟩ "4-a") :=
+example : HostilePake (toyCrypto sampleNfc) ⟨"s0", py "app", [1], [0]⟩ [52, 45, 97] [97, 112, 112] [2] := Or.inl rfl
+example : toBytes (toyCrypto sampleNfc) (py "4-a") = some [52, 45, 97] ∧
+    toBytes (toyCrypto sampleNfc) (py "app") = some [97, 112, 112] := by decide
+example : HostilePake (toyCrypto sampleNfc) ⟨"s0", py "app", [1], [0]⟩ [52, 45, 97] [97, 112, 112]
+    (myPake (toyCrypto sampleNfc) ⟨"s0", py "app", [1], [0]⟩ [52, 45, 97] [97, 112, 112]) :=
   Or.inr ⟨_, rfl, by decide⟩
 
 /-- what a side publishes as its PAKE message does not depend on the arrival order -/
-theorem publishes_pake (C : Crypto) (I : C.Ideal) (a b : Cfg) (ca cb : String) (hr : a.rnd ≠ b.rnd) (o : Bool) :
-    sentBody "pake" (sideRun C a ca b cb o).1.out = some (pakeOf C a ca) := by
-  obtain ⟨k, _, hk, _, _⟩ := I.pake (toBytes C ca) (toBytes C a.appid) a.rnd (toBytes C cb) (toBytes C b.appid) b.rnd hr
-  have := stash_then_code_eq_code_then_pake C a ca b.side _ k hk
-  cases o
-  · simp only [sideRun, pakeOf, myPake, Bool.false_eq_true, if_false]
-    rw [show pakeBody (C.pakeStart (toBytes C cb) (toBytes C b.appid) b.rnd) = pakeBody (C.pakeStart (toBytes C cb) (toBytes C b.appid) b.rnd) from rfl, this.2]
-    simp [stKey, stCode, sentBody, myPake]
-  · simp only [sideRun, pakeOf, myPake, if_true]
-    rw [this.1]
-    simp [stKey, stCode, sentBody, myPake]
+theorem publishes_pake (C : Crypto) (I : C.Ideal) (a b : Cfg) (ca cb : PyStr) (hr : a.rnd ≠ b.rnd) (o : Bool)
+    (hca : encodable ca = true) (haa : encodable a.appid = true)
+    (hcb : encodable cb = true) (hab : encodable b.appid = true) :
+    ∃ body, pakeOf C a ca = some body ∧ sentBody "pake" (sideRun C a ca b cb o).1.out = some body := by
+  obtain ⟨pwa, ida, pwb, idb, h1, h2, h3, h4⟩ := four_bytes I hca haa hcb hab
+  obtain ⟨k, _, hk, _, _⟩ := I.pake pwa ida a.rnd pwb idb b.rnd hr
+  refine ⟨myPake C a pwa ida, pakeOf_some C a ca pwa ida h1 h2, ?_⟩
+  rw [sideRun_eq C a b ca cb pwa ida pwb idb k h1 h2 h3 h4 hk o]
+  cases o <;> simp [stKey, stCode, sentBody, myPake]
 
-/-- **key_agree_iff.**  Two clients with arbitrary codes, appids and arrival orders (four
+/-- **key_agree_iff.**  Two clients with arbitrary *encodable* codes and appids (strings strict UTF-8
+    accepts; for the others see `unencodable_code_refused`) and arbitrary arrival orders (four
     combinations of PAKE-before-code / code-before-PAKE) both finish without exception, both hold a
     key (the same one in `Wormhole._key` and `Receive._key`), and the two keys are equal exactly when
     the codes are NFC-equal and the appids are NFC-equal. -/
-theorem key_agree_iff (C : Crypto) (I : C.Ideal) (a b : Cfg) (ca cb : String) (hr : a.rnd ≠ b.rnd)
-    (oa ob : Bool) :
+theorem key_agree_iff (C : Crypto) (I : C.Ideal) (a b : Cfg) (ca cb : PyStr) (hr : a.rnd ≠ b.rnd)
+    (oa ob : Bool)
+    (hca : encodable ca = true) (haa : encodable a.appid = true)
+    (hcb : encodable cb = true) (hab : encodable b.appid = true) :
     ∃ ka kb,
       (sideRun C a ca b cb oa).2 = none ∧ (sideRun C b cb a ca ob).2 = none ∧
       (sideRun C a ca b cb oa).1.wkey = some ka ∧ (sideRun C a ca b cb oa).1.rkey = some ka ∧
       (sideRun C b cb a ca ob).1.wkey = some kb ∧ (sideRun C b cb a ca ob).1.rkey = some kb ∧
       (ka = kb ↔ C.nfc ca = C.nfc cb ∧ C.nfc a.appid = C.nfc b.appid) := by
-  obtain ⟨ka, kb, hka, hkb, hiff⟩ :=
-    I.pake (toBytes C ca) (toBytes C a.appid) a.rnd (toBytes C cb) (toBytes C b.appid) b.rnd hr
-  have ha := stash_then_code_eq_code_then_pake C a ca b.side _ ka hka
-  have hb := stash_then_code_eq_code_then_pake C b cb a.side _ kb hkb
+  obtain ⟨pwa, ida, pwb, idb, h1, h2, h3, h4⟩ := four_bytes I hca haa hcb hab
+  obtain ⟨ka, kb, hka, hkb, hiff⟩ := I.pake pwa ida a.rnd pwb idb b.rnd hr
+  have ea := sideRun_eq C a b ca cb pwa ida pwb idb ka h1 h2 h3 h4 hka oa
+  have eb := sideRun_eq C b a cb ca pwb idb pwa ida kb h3 h4 h1 h2 hkb ob
   refine ⟨ka, kb, ?_, ?_, ?_, ?_, ?_, ?_, ?_⟩
-  · cases oa <;> simp [sideRun, pakeOf, myPake, ha.1, ha.2]
-  · cases ob <;> simp [sideRun, pakeOf, myPake, hb.1, hb.2]
-  · cases oa <;> simp [sideRun, pakeOf, myPake, ha.1, ha.2, stKey]
-  · cases oa <;> simp [sideRun, pakeOf, myPake, ha.1, ha.2, stKey]
-  · cases ob <;> simp [sideRun, pakeOf, myPake, hb.1, hb.2, stKey]
-  · cases ob <;> simp [sideRun, pakeOf, myPake, hb.1, hb.2, stKey]
-  · rw [hiff, toBytes_eq_iff I, toBytes_eq_iff I]
+  · rw [ea]
+  · rw [eb]
+  · rw [ea]; cases oa <;> simp [stKey]
+  · rw [ea]; cases oa <;> simp [stKey]
+  · rw [eb]; cases ob <;> simp [stKey]
+  · rw [eb]; cases ob <;> simp [stKey]
+  · rw [hiff, toBytes_eq_iff ca cb pwa pwb h1 h3, toBytes_eq_iff a.appid b.appid ida idb h2 h4]
 
 /-- NFC-equivalent spellings of a code agree: typing `nfc c` instead of `c` gives the same key. -/
-theorem nfc_spelling_agrees (C : Crypto) (I : C.Ideal) (a b : Cfg) (c : String) (hr : a.rnd ≠ b.rnd)
-    (happ : a.appid = b.appid) (oa ob : Bool) :
+theorem nfc_spelling_agrees (C : Crypto) (I : C.Ideal) (a b : Cfg) (c : PyStr) (hr : a.rnd ≠ b.rnd)
+    (happ : a.appid = b.appid) (oa ob : Bool) (hc : encodable c = true) (haa : encodable a.appid = true) :
     (sideRun C a c b (C.nfc c) oa).1.wkey = (sideRun C b (C.nfc c) a c ob).1.wkey := by
-  obtain ⟨ka, kb, _, _, h1, _, h2, _, hiff⟩ := key_agree_iff C I a b c (C.nfc c) hr oa ob
+  have hn : encodable (C.nfc c) = true := by rw [I.nfc_encodable]; exact hc
+  obtain ⟨ka, kb, _, _, h1, _, h2, _, hiff⟩ :=
+    key_agree_iff C I a b c (C.nfc c) hr oa ob hc haa hn (happ ▸ haa)
   rw [h1, h2, hiff.mpr ⟨(I.nfc_idem c).symm, by rw [happ]⟩]
+
+/-! ## codes, appids and purposes that strict UTF-8 cannot encode (unpaired surrogates) -/
+
+/-- `str.encode("utf-8")` raises exactly on the strings with a surrogate … -/
+theorem utf8enc_defined_iff (s : PyStr) : (utf8enc s).isSome = encodable s := utf8enc_isSome s
+
+/-- … and where it does not raise it is injective: two different strings never get the same bytes
+    (this is what `errors="replace"`/`"ignore"` would destroy). -/
+theorem utf8_strict_injective (s t : PyStr) (b : Bytes) (hs : utf8enc s = some b) (ht : utf8enc t = some b) :
+    s = t := utf8enc_inj s t b hs ht
+
+/-- a lone surrogate is a legal one-character `str` that is not encodable; an astral character is -/
+example : encodable [0x34, 0x2d, 0xdce9] = false ∧ encodable [0x34, 0x2d, 0x1f600] = true ∧
+    utf8enc [0xdce9] = none ∧ utf8enc [0xe9] = some [0xc3, 0xa9] ∧ utf8enc [0x3f] = some [0x3f] := by decide
+
+/-- **unencodable_code_refused.**  If the code or the appid holds a code point strict UTF-8 cannot
+    encode, `B.got_code; K.got_code` (what `set_code` / `choose_words` end in) raises
+    UnicodeEncodeError out of `build_pake` — after Boss has reported the code and Key/_SortedKey have
+    moved, with `_sp` unset and *no PAKE message published* — on the plain path and on the path with
+    the peer's PAKE already stashed; and a peer of such a client is never handed a PAKE message. -/
+theorem unencodable_code_refused (C : Crypto) (I : C.Ideal) (cfg : Cfg) (code : PyStr)
+    (h : encodable code = false ∨ encodable cfg.appid = false) :
+    gotCode C cfg code init
+      = ({ init with k := .S10, sk := .S1_know_code, b := .S1_lonely, out := [.wCode code] },
+         some .unicodeEncodeError) ∧
+    (∀ body, gotCode C cfg code { init with k := .S01, stash := some body, o := .S1_yes_pake }
+      = ({ init with k := .S11, sk := .S1_know_code, stash := some body, o := .S1_yes_pake, b := .S1_lonely,
+                     out := [.wCode code] }, some .unicodeEncodeError)) ∧
+    pakeOf C cfg code = none ∧
+    (∀ (peer : Cfg) (pc : PyStr) (o : Bool), sideRun C peer pc cfg code o = run C peer [.code pc] init) := by
+  have hu : toBytes C code = none ∨ toBytes C cfg.appid = none := by
+    rcases h with h | h
+    · exact Or.inl (toBytes_none I h)
+    · exact Or.inr (toBytes_none I h)
+  have hp := pakeOf_none C cfg code hu
+  refine ⟨?_, ?_, hp, ?_⟩
+  · rcases hu with hu | hu
+    · simp [gotCode, andThen, bossIn, keyIn, init, Boss.table, Boss.init, BIn.tag, Key.init, Key.table, KIn.tag,
+        bossOut, emit, keyOut, sortedKeyIn, SortedKey.init, SortedKey.table, SKIn.tag, sortedKeyOut, seqM, raise, hu]
+    · simp [gotCode, andThen, bossIn, keyIn, init, Boss.table, Boss.init, BIn.tag, Key.init, Key.table, KIn.tag,
+        bossOut, emit, keyOut, sortedKeyIn, SortedKey.init, SortedKey.table, SKIn.tag, sortedKeyOut, seqM, raise, hu]
+  · intro body
+    rcases hu with hu | hu
+    · simp [gotCode, andThen, bossIn, keyIn, init, Boss.table, Boss.init, BIn.tag, Key.init, Key.table, KIn.tag,
+        bossOut, emit, keyOut, sortedKeyIn, SortedKey.init, SortedKey.table, SKIn.tag, sortedKeyOut, seqM, raise, hu]
+    · simp [gotCode, andThen, bossIn, keyIn, init, Boss.table, Boss.init, BIn.tag, Key.init, Key.table, KIn.tag,
+        bossOut, emit, keyOut, sortedKeyIn, SortedKey.init, SortedKey.table, SKIn.tag, sortedKeyOut, seqM, raise, hu]
+  · intro peer pc o
+    simp only [sideRun, hp]
+
+/-- **refused_shares_nothing_ever.**  After a refused code — from the initial state or with the peer's
+    PAKE stashed — for *every* later schedule of peer messages (the peer's real PAKE, hostile ones, any
+    other phase, any body), `send`s, `close`, `closed` and further refused codes, whether or not a step
+    raises: the client never holds a key (`Wormhole._key`, `Receive._key`, `Send._key`), never reports a
+    key, verifier, versions or message, never publishes any mailbox message, and `derive_key` raises
+    NoKeyError for every purpose and length.  Step-wise (`envStep_noSp`) this holds through exceptions
+    as well; the proof does not look at the transition tables. -/
+theorem refused_shares_nothing_ever (C : Crypto) (I : C.Ideal) (cfg : Cfg) (code : PyStr)
+    (h : encodable code = false ∨ encodable cfg.appid = false) (stashed : Option Bytes)
+    (evs : List Env) (hev : ∀ e ∈ evs, e.noGoodCode C cfg) :
+    let s0 := match stashed with
+      | none => (gotCode C cfg code init).1
+      | some body => (gotCode C cfg code { init with k := .S01, stash := some body, o := .S1_yes_pake }).1
+    let s' := (run C cfg evs s0).1
+    s'.sp = none ∧ s'.wkey = none ∧ s'.rkey = none ∧ s'.skey = none ∧
+    (∀ e ∈ s'.out, e.shares = false) ∧ (∀ p n, deriveKey C s' p n = .error .noKeyError) := by
+  have hu : Unenc C cfg code := by
+    rcases h with h | h
+    · exact Or.inl (toBytes_none I h)
+    · exact Or.inr (toBytes_none I h)
+  intro s0 s'
+  have h0 : NoSp s0 := by
+    cases stashed with
+    | none => exact gotCode_noSp C cfg code hu init init_noSp
+    | some body => exact gotCode_noSp C cfg code hu _ (by simp [NoSp, init])
+  obtain ⟨a, b, c, d, q⟩ := run_noSp C cfg evs hev s0 h0
+  exact ⟨a, c, b, d, q, fun p n => by simp [deriveKey, s', c]⟩
+
+/-- the step-wise form: one environment event, from any state without SPAKE2 instance and keys,
+    leaves such a state — also when the step ends in an exception (e.g. the AttributeError of
+    `compute_key` when the peer's PAKE reaches a `_SortedKey` whose `build_pake` had raised) -/
+theorem refused_stays_refused (C : Crypto) (cfg : Cfg) (e : Env) (he : e.noGoodCode C cfg) (s : St)
+    (h : NoSp s) : NoSp (envStep C cfg e s).1 := envStep_noSp C cfg e he s h
+
+/-- that AttributeError is real: the peer's well-formed PAKE after a refused code -/
+example : (run (toyCrypto sampleNfc) ⟨"s0", py "app", [1], [0]⟩
+    [.code [0x34, 0x2d, 0xdce9], .rx ⟨"s1", "pake", pakeBody [7]⟩] init).2 = some .unicodeEncodeError ∧
+    (envStep (toyCrypto sampleNfc) ⟨"s0", py "app", [1], [0]⟩ (.rx ⟨"s1", "pake", pakeBody [7]⟩)
+      (gotCode (toyCrypto sampleNfc) ⟨"s0", py "app", [1], [0]⟩ [0x34, 0x2d, 0xdce9] init).1).2
+      = some .attributeError := by decide
 
 /-- **match_derive_equal.**  Equal keys ⇒ after each side decrypts the other's `version` message it
     reports the same verifier, and `derive_key(p, n)` returns the same result on both sides for every
-    purpose and length (including the error cases). -/
-theorem match_derive_equal (C : Crypto) (a b : Cfg) (ca cb : String) (key pa pb : Bytes) (p : String) (n : Nat) :
-    let sa := stHappy C a ca key pa
-    let sb := stHappy C b cb key pb
+    purpose and length (including the error cases: NoKeyError / UnicodeEncodeError / ValueError). -/
+theorem match_derive_equal (C : Crypto) (a b : Cfg) (ca cb : PyStr) (pwa ida pwb idb : Bytes) (key pa pb : Bytes)
+    (p : PyStr) (n : Nat) :
+    let sa := stHappy C a ca pwa ida key pa
+    let sb := stHappy C b cb pwb idb key pb
     (∃ v, Ev.wVerifier v ∈ sa.out ∧ Ev.wVerifier v ∈ sb.out ∧ v = C.hkdf key verifierPurpose 32) ∧
     deriveKey C sa p n = deriveKey C sb p n ∧
-    (n ≤ hkdfMax → deriveKey C sa p n = .ok (C.hkdf key (toBytes C p) n)) := by
+    (n ≤ hkdfMax → ∀ info, toBytes C p = some info → deriveKey C sa p n = .ok (C.hkdf key info n)) := by
   refine ⟨⟨_, ?_, ?_, rfl⟩, ?_, ?_⟩
   · simp [stHappy]
   · simp [stHappy]
   · simp [deriveKey, stHappy, stKey]
-  · intro hn
-    simp [deriveKey, stHappy, stKey, Nat.not_lt.mpr hn]
+  · intro hn info hi
+    simp [deriveKey, stHappy, stKey, Nat.not_lt.mpr hn, hi]
 
 /-- `stHappy` is what really happens: the peer's `version` message, sealed under the same key,
     moves Receive/Send/Boss to verified/happy and emits verifier then versions — nothing else. -/
-theorem first_good_message (C : Crypto) (I : C.Ideal) (cfg : Cfg) (code peer : String) (key nn pt : Bytes) :
-    orderGotMessage C cfg ⟨peer, "version", C.box (phaseKey C key peer "version") nn pt⟩ (stKey C cfg code key)
-      = (stHappy C cfg code key pt, none) :=
-  rxVersion_stKey C cfg code peer key _ pt (I.unbox_box _ _ _)
+theorem first_good_message (C : Crypto) (I : C.Ideal) (cfg : Cfg) (code : PyStr) (pw idS : Bytes) (peer : String)
+    (key nn pt : Bytes) :
+    orderGotMessage C cfg ⟨peer, "version", C.box (phaseKey C key peer "version") nn pt⟩ (stKey C cfg code pw idS key)
+      = (stHappy C cfg code pw idS key pt, none) :=
+  rxVersion_stKey C cfg code pw idS peer key _ pt (I.unbox_box _ _ _)
 
-/-- before the key exists `derive_key` raises NoKeyError (initially, and after the code alone) -/
-theorem derive_before_key (C : Crypto) (cfg : Cfg) (code p : String) (n : Nat) :
+/-- before the key exists `derive_key` raises NoKeyError (initially, and after the code alone —
+    accepted or refused), for every purpose, encodable or not -/
+theorem derive_before_key (C : Crypto) (cfg : Cfg) (code p : PyStr) (n : Nat) :
     deriveKey C init p n = .error .noKeyError ∧
     deriveKey C (gotCode C cfg code init).1 p n = .error .noKeyError := by
-  rw [gotCode_init]
-  simp [deriveKey, stCode, init]
+  constructor
+  · simp [deriveKey, init]
+  · have : (gotCode C cfg code init).1.wkey = none := by
+      cases hc : toBytes C code with
+      | none => exact (gotCode_noSp C cfg code (Or.inl hc) init init_noSp).2.2.1
+      | some pw =>
+        cases ha : toBytes C cfg.appid with
+        | none => exact (gotCode_noSp C cfg code (Or.inr ha) init init_noSp).2.2.1
+        | some idS => rw [gotCode_init C cfg code pw idS hc ha]; simp [stCode, init]
+    simp [deriveKey, this]
 
-/-- **purposes_separate.**  For `1 ≤ n ≤ 255·32`, NFC-different purposes give different bytes
-    (`derive_key` normalises the purpose, so "different" means NFC-different). -/
+/-- **purposes_separate.**  For `1 ≤ n ≤ 255·32`, NFC-different (encodable) purposes give different
+    bytes (`derive_key` normalises the purpose, so "different" means NFC-different). -/
 theorem purposes_separate (C : Crypto) (I : C.Ideal) (s : St) (key : Bytes) (hk : s.wkey = some key)
-    (p q : String) (hpq : C.nfc p ≠ C.nfc q) (n : Nat) (h1 : 1 ≤ n) (h2 : n ≤ hkdfMax) :
+    (p q : PyStr) (hp : encodable p = true) (hq : encodable q = true)
+    (hpq : C.nfc p ≠ C.nfc q) (n : Nat) (h1 : 1 ≤ n) (h2 : n ≤ hkdfMax) :
     ∃ x y, deriveKey C s p n = .ok x ∧ deriveKey C s q n = .ok y ∧ x ≠ y := by
-  refine ⟨C.hkdf key (toBytes C p) n, C.hkdf key (toBytes C q) n, ?_, ?_, ?_⟩
-  · simp [deriveKey, hk, Nat.not_lt.mpr h2]
-  · simp [deriveKey, hk, Nat.not_lt.mpr h2]
+  obtain ⟨ip, hip⟩ := toBytes_of_encodable I hp
+  obtain ⟨iq, hiq⟩ := toBytes_of_encodable I hq
+  refine ⟨C.hkdf key ip n, C.hkdf key iq n, ?_, ?_, ?_⟩
+  · simp [deriveKey, hk, hip, Nat.not_lt.mpr h2]
+  · simp [deriveKey, hk, hiq, Nat.not_lt.mpr h2]
   · intro h
-    exact hpq ((toBytes_eq_iff I p q).mp (I.hkdf_inj _ _ _ _ n h1 h).2)
+    exact hpq ((toBytes_eq_iff p q ip iq hip hiq).mp (I.hkdf_inj _ _ _ _ n h1 h).2)
+
+/-- **unencodable_purpose_refused.**  With a key, `derive_key` of a purpose strict UTF-8 cannot encode
+    raises UnicodeEncodeError at every length (the purpose is encoded before HKDF looks at the length):
+    no two different purposes are ever folded onto the same HKDF `info`. -/
+theorem unencodable_purpose_refused (C : Crypto) (I : C.Ideal) (s : St) (key : Bytes) (hk : s.wkey = some key)
+    (p : PyStr) (hp : encodable p = false) (n : Nat) : deriveKey C s p n = .error .unicodeEncodeError := by
+  simp [deriveKey, hk, toBytes_none I hp]
 
 /-- the guard is exact: beyond `255·32` both calls raise ValueError … -/
-theorem purposes_guard_upper (C : Crypto) (s : St) (key : Bytes) (hk : s.wkey = some key) (p q : String)
+theorem purposes_guard_upper (C : Crypto) (I : C.Ideal) (s : St) (key : Bytes) (hk : s.wkey = some key) (p q : PyStr)
+    (hp : encodable p = true) (hq : encodable q = true)
     (n : Nat) (h : hkdfMax < n) : deriveKey C s p n = .error .valueError ∧ deriveKey C s q n = .error .valueError := by
-  simp [deriveKey, hk, h]
+  obtain ⟨ip, hip⟩ := toBytes_of_encodable I hp
+  obtain ⟨iq, hiq⟩ := toBytes_of_encodable I hq
+  simp [deriveKey, hk, h, hip, hiq]
 
 /-- … and at `n = 0` an ideal instance returns the same (empty) bytes for all purposes -/
 theorem purposes_guard_zero :
-    ∃ (C : Crypto) (_ : C.Ideal) (s : St) (p q : String), C.nfc p ≠ C.nfc q ∧ s.wkey ≠ none ∧
+    ∃ (C : Crypto) (_ : C.Ideal) (s : St) (p q : PyStr), C.nfc p ≠ C.nfc q ∧ s.wkey ≠ none ∧
+      encodable p = true ∧ encodable q = true ∧
       deriveKey C s p 0 = deriveKey C s q 0 :=
-  ⟨toyCrypto sampleNfc, sampleIdeal, { init with wkey := some [7] }, "a", "b",
-    by simp [toyCrypto, sampleNfc], by simp [init], by simp [deriveKey, toyCrypto, hkdfMax]⟩
+  ⟨toyCrypto sampleNfc, sampleIdeal, { init with wkey := some [7] }, py "a", py "b",
+    by decide, by simp [init], by decide, by decide, by simp [deriveKey, toyCrypto, hkdfMax, toBytes, sampleNfc, py, utf8enc, utf8cp]⟩
 
 /-- **mismatch_delivers_nothing** (one side, any key it does not share).  After the key is
     computed, for every schedule of undecryptable non-PAKE peer messages and application `send`s:
@@ -194,9 +321,9 @@ theorem purposes_guard_zero :
     message has arrived the side is closing with WrongPasswordError, `T.close` was only ever called
     with mood "scary", and Terminator's `closed` (with or without an application `close()` first)
     reports exactly WrongPasswordError. -/
-theorem mismatch_delivers_nothing_after_key (C : Crypto) (cfg : Cfg) (code : String) (key : Bytes)
+theorem mismatch_delivers_nothing_after_key (C : Crypto) (cfg : Cfg) (code : PyStr) (pw idS : Bytes) (key : Bytes)
     (evs : List Env) (hev : ∀ e ∈ evs, PeerEv C key e) :
-    ∃ s', run C cfg evs (stKey C cfg code key) = (s', none) ∧
+    ∃ s', run C cfg evs (stKey C cfg code pw idS key) = (s', none) ∧
       (∀ e ∈ s'.out, e.delivers = false) ∧ (∀ v, Ev.wClosed v ∉ s'.out) ∧
       ((∃ e ∈ evs, e.isRx = true) →
         s'.b = .S3_closing ∧ s'.result = .wrongPassword ∧ Ev.tClose "scary" ∈ s'.out ∧
@@ -205,7 +332,7 @@ theorem mismatch_delivers_nothing_after_key (C : Crypto) (cfg : Cfg) (code : Str
         (run C cfg [.closed] s').1.out = s'.out ++ [.wClosed .wrongPassword] ∧
         (run C cfg [.close, .closed] s').1.out = s'.out ++ [.wClosed .wrongPassword]) := by
   obtain ⟨s', e, inv, _, hrx, _⟩ :=
-    run_inv C cfg key evs (stKey C cfg code key) (Or.inl (stKey_unverified C cfg code key)) rfl hev
+    run_inv C cfg key evs (stKey C cfg code pw idS key) (Or.inl (stKey_unverified C cfg code pw idS key)) rfl hev
   refine ⟨s', e, inv.quiet, inv.noClosed, fun h => ?_⟩
   have sc := hrx h
   obtain ⟨c1, c2, _, c4⟩ := scared_closed C cfg key s' sc
@@ -213,28 +340,29 @@ theorem mismatch_delivers_nothing_after_key (C : Crypto) (cfg : Cfg) (code : Str
 
 /-- The same when peer messages arrive *before* the PAKE message (Order queues them, and judges
     them right after the key is computed), followed by any later schedule. -/
-theorem mismatch_delivers_nothing_queued (C : Crypto) (cfg : Cfg) (code peer : String) (m key : Bytes)
-    (h : C.pakeFinish (toBytes C code) (toBytes C cfg.appid) cfg.rnd m = some key)
+theorem mismatch_delivers_nothing_queued (C : Crypto) (cfg : Cfg) (code : PyStr) (pw idS : Bytes) (peer : String)
+    (m key : Bytes) (hc : toBytes C code = some pw) (ha : toBytes C cfg.appid = some idS)
+    (h : C.pakeFinish pw idS cfg.rnd m = some key)
     (pre : List Msg) (hpre : ∀ x ∈ pre, NonPake x ∧ Bad C key x) (hne : pre ≠ [])
     (post : List Env) (hpost : ∀ e ∈ post, PeerEv C key e) :
     ∃ s', run C cfg ([.code code] ++ pre.map .rx ++ [.rx ⟨peer, "pake", pakeBody m⟩] ++ post) init = (s', none) ∧
       (∀ e ∈ s'.out, e.delivers = false) ∧ s'.wkey = some key ∧
       s'.b = .S3_closing ∧ s'.result = .wrongPassword ∧
       (run C cfg [.closed] s').1.out = s'.out ++ [.wClosed .wrongPassword] := by
-  have q := queue_early C cfg pre (stCode C cfg code) rfl (fun x hx => (hpre x hx).1)
-  obtain ⟨s1, e1, i1, sc1, o1, _⟩ := drain_bad C cfg key pre { stKey C cfg code key with oq := pre }
-    (Or.inl ((stKey_unverified C cfg code key).set_oq pre)) (fun x hx => (hpre x hx).2)
+  have q := queue_early C cfg pre (stCode C cfg code pw idS) rfl (fun x hx => (hpre x hx).1)
+  obtain ⟨s1, e1, i1, sc1, o1, _⟩ := drain_bad C cfg key pre { stKey C cfg code pw idS key with oq := pre }
+    (Or.inl ((stKey_unverified C cfg code pw idS key).set_oq pre)) (fun x hx => (hpre x hx).2)
   have sc1' := (sc1 hne).clear_oq
   obtain ⟨s2, e2, i2, _, _, keep⟩ := run_inv C cfg key post { s1 with oq := [] } (Or.inr sc1') o1 hpost
   have sc2 := keep sc1'
   have hw : s2.wkey = some key := sc2.wkey
   refine ⟨s2, ?_, i2.quiet, hw, sc2.b, sc2.res, (scared_closed C cfg key s2 sc2).2.1⟩
-  have step1 : run C cfg [.code code] init = (stCode C cfg code, none) := by
-    simp only [run, seqM, envStep, gotCode_init]
-  have hq : (stCode C cfg code).oq ++ pre = pre := by simp [stCode, init]
-  have step3 : envStep C cfg (.rx ⟨peer, "pake", pakeBody m⟩) { stCode C cfg code with oq := pre }
+  have step1 : run C cfg [.code code] init = (stCode C cfg code pw idS, none) := by
+    simp only [run, seqM, envStep, gotCode_init C cfg code pw idS hc ha]
+  have hq : (stCode C cfg code pw idS).oq ++ pre = pre := by simp [stCode, init]
+  have step3 : envStep C cfg (.rx ⟨peer, "pake", pakeBody m⟩) { stCode C cfg code pw idS with oq := pre }
       = ({ s1 with oq := [] }, none) := by
-    simp only [envStep, rxPake_stCode_queued C cfg code peer m key pre h, e1, andThen, ok]
+    simp only [envStep, rxPake_stCode_queued C cfg code pw idS peer m key pre h, e1, andThen, ok]
   rw [List.append_assoc, List.append_assoc, run_append, step1]
   simp only []
   rw [run_append, q, hq]
@@ -243,13 +371,15 @@ theorem mismatch_delivers_nothing_queued (C : Crypto) (cfg : Cfg) (code peer : S
   simp only [run, seqM, step3]
   exact e2
 
-/-- **mismatch_delivers_nothing** (two parties).  If the codes are not NFC-equal or the appids are
-    not NFC-equal, then for both arrival orders on side `a` and every schedule of messages that side
-    `b` sealed under *its* key (its `version` message, any data message) interleaved with `a`'s own
-    `send`s, side `a` delivers nothing and — once it has heard from `b` — closes with
+/-- **mismatch_delivers_nothing** (two parties).  If the (encodable) codes are not NFC-equal or the
+    appids are not NFC-equal, then for both arrival orders on side `a` and every schedule of messages
+    that side `b` sealed under *its* key (its `version` message, any data message) interleaved with
+    `a`'s own `send`s, side `a` delivers nothing and — once it has heard from `b` — closes with
     WrongPasswordError. -/
-theorem mismatch_delivers_nothing (C : Crypto) (I : C.Ideal) (a b : Cfg) (ca cb : String)
+theorem mismatch_delivers_nothing (C : Crypto) (I : C.Ideal) (a b : Cfg) (ca cb : PyStr)
     (hr : a.rnd ≠ b.rnd) (hne : ¬ (C.nfc ca = C.nfc cb ∧ C.nfc a.appid = C.nfc b.appid)) (oa ob : Bool)
+    (hca : encodable ca = true) (haa : encodable a.appid = true)
+    (hcb : encodable cb = true) (hab : encodable b.appid = true)
     (evs : List Env) :
     ∃ ka kb sa, (sideRun C b cb a ca ob).1.wkey = some kb ∧ sideRun C a ca b cb oa = (sa, none) ∧
       sa.wkey = some ka ∧ ka ≠ kb ∧
@@ -260,17 +390,17 @@ theorem mismatch_delivers_nothing (C : Crypto) (I : C.Ideal) (a b : Cfg) (ca cb 
         ∃ s', run C a evs sa = (s', none) ∧ (∀ e ∈ s'.out, e.delivers = false) ∧
           ((∃ e ∈ evs, e.isRx = true) → s'.b = .S3_closing ∧ s'.result = .wrongPassword ∧
             (run C a [.closed] s').1.out = s'.out ++ [.wClosed .wrongPassword])) := by
-  obtain ⟨ka, kb, hka, hkb, hiff⟩ :=
-    I.pake (toBytes C ca) (toBytes C a.appid) a.rnd (toBytes C cb) (toBytes C b.appid) b.rnd hr
-  have hab : ka ≠ kb := by
+  obtain ⟨pwa, ida, pwb, idb, h1, h2, h3, h4⟩ := four_bytes I hca haa hcb hab
+  obtain ⟨ka, kb, hka, hkb, hiff⟩ := I.pake pwa ida a.rnd pwb idb b.rnd hr
+  have hab' : ka ≠ kb := by
     intro h
     apply hne
     have := hiff.mp h
-    rwa [toBytes_eq_iff I, toBytes_eq_iff I] at this
-  have ha := stash_then_code_eq_code_then_pake C a ca b.side _ ka hka
-  have hb := stash_then_code_eq_code_then_pake C b cb a.side _ kb hkb
+    rwa [toBytes_eq_iff ca cb pwa pwb h1 h3, toBytes_eq_iff a.appid b.appid ida idb h2 h4] at this
+  have ea := sideRun_eq C a b ca cb pwa ida pwb idb ka h1 h2 h3 h4 hka oa
+  have eb := sideRun_eq C b a cb ca pwb idb pwa ida kb h3 h4 h1 h2 hkb ob
   have hbk : (sideRun C b cb a ca ob).1.wkey = some kb := by
-    cases ob <;> simp [sideRun, pakeOf, myPake, hb.1, hb.2, stKey]
+    rw [eb]; cases ob <;> simp [stKey]
   have hbad : ∀ e ∈ evs, (match e with
           | .rx m => m.phase ≠ "pake" ∧ ∃ nn pt, m.body = C.box (phaseKey C kb m.side m.phase) nn pt
           | .send _ => True
@@ -280,7 +410,7 @@ theorem mismatch_delivers_nothing (C : Crypto) (I : C.Ideal) (a b : Cfg) (ca cb 
     | rx m =>
       obtain ⟨hp, nn, pt, hbody⟩ := he
       refine ⟨hp, ?_⟩
-      have := peer_sealed_bad I ka kb hab m.side m.phase nn pt
+      have := peer_sealed_bad I ka kb hab' m.side m.phase nn pt
       unfold Bad at this ⊢
       rw [hbody]; exact this
     | send _ => trivial
@@ -289,94 +419,103 @@ theorem mismatch_delivers_nothing (C : Crypto) (I : C.Ideal) (a b : Cfg) (ca cb 
     | closed => exact he.elim
   cases oa
   · -- PAKE first, then code: the state differs from `stKey` only in the stash
-    refine ⟨ka, kb, { stKey C a ca ka with stash := some (pakeOf C b cb) }, hbk, ?_, ?_, hab, ?_⟩
-    · simp [sideRun, pakeOf, myPake, ha.2]
+    refine ⟨ka, kb, { stKey C a ca pwa ida ka with stash := some (myPake C b pwb idb) }, hbk, ?_, ?_, hab', ?_⟩
+    · rw [ea]; simp
     · simp [stKey]
     · intro hall
       have hall' : ∀ e ∈ evs, PeerEv C ka e := fun e he => hbad e he (hall e he)
-      obtain ⟨s', e, inv, _, hrx, _⟩ := run_inv C a ka evs { stKey C a ca ka with stash := some (pakeOf C b cb) }
-        (Or.inl (stKey_unverified C a ca ka).set_stash) rfl hall'
+      obtain ⟨s', e, inv, _, hrx, _⟩ := run_inv C a ka evs { stKey C a ca pwa ida ka with stash := some (myPake C b pwb idb) }
+        (Or.inl (stKey_unverified C a ca pwa ida ka).set_stash) rfl hall'
       refine ⟨s', e, inv.quiet, fun h => ?_⟩
       have sc := hrx h
       exact ⟨sc.b, sc.res, (scared_closed C a ka s' sc).2.1⟩
-  · refine ⟨ka, kb, stKey C a ca ka, hbk, ?_, ?_, hab, ?_⟩
-    · simp [sideRun, pakeOf, myPake, ha.1]
+  · refine ⟨ka, kb, stKey C a ca pwa ida ka, hbk, ?_, ?_, hab', ?_⟩
+    · rw [ea]; simp
     · simp [stKey]
     · intro hall
       have hall' : ∀ e ∈ evs, PeerEv C ka e := fun e he => hbad e he (hall e he)
-      obtain ⟨s', e, q, _, hsc⟩ := mismatch_delivers_nothing_after_key C a ca ka evs hall'
+      obtain ⟨s', e, q, _, hsc⟩ := mismatch_delivers_nothing_after_key C a ca pwa ida ka evs hall'
       exact ⟨s', e, q, fun h => ⟨(hsc h).1, (hsc h).2.1, (hsc h).2.2.2.2.2.1⟩⟩
 
 /-- what side `b` really publishes as its `version` message: its versions sealed under the phase
     key derived from *its* session key -/
-theorem publishes_version (C : Crypto) (I : C.Ideal) (a b : Cfg) (ca cb : String) (hr : a.rnd ≠ b.rnd) (ob : Bool) :
+theorem publishes_version (C : Crypto) (I : C.Ideal) (a b : Cfg) (ca cb : PyStr) (hr : a.rnd ≠ b.rnd) (ob : Bool)
+    (hca : encodable ca = true) (haa : encodable a.appid = true)
+    (hcb : encodable cb = true) (hab : encodable b.appid = true) :
     ∃ kb, (sideRun C b cb a ca ob).1.wkey = some kb ∧
       sentBody "version" (sideRun C b cb a ca ob).1.out
         = some (C.box (phaseKey C kb b.side "version") (natNonce 0) b.versions) := by
-  obtain ⟨_, kb, _, hkb, _⟩ :=
-    I.pake (toBytes C ca) (toBytes C a.appid) a.rnd (toBytes C cb) (toBytes C b.appid) b.rnd hr
-  have hb := stash_then_code_eq_code_then_pake C b cb a.side _ kb hkb
+  obtain ⟨pwa, ida, pwb, idb, h1, h2, h3, h4⟩ := four_bytes I hca haa hcb hab
+  obtain ⟨_, kb, _, hkb, _⟩ := I.pake pwa ida a.rnd pwb idb b.rnd hr
+  have eb := sideRun_eq C b a cb ca pwb idb pwa ida kb h3 h4 h1 h2 hkb ob
   refine ⟨kb, ?_, ?_⟩
-  · cases ob <;> simp [sideRun, pakeOf, myPake, hb.1, hb.2, stKey]
-  · cases ob <;> simp [sideRun, pakeOf, myPake, hb.1, hb.2, stKey, stCode, sentBody]
+  · rw [eb]; cases ob <;> simp [stKey]
+  · rw [eb]; cases ob <;> simp [stKey, stCode, sentBody]
 
-/-- **Matching codes, end to end.**  NFC-equal codes and appids: when side `a` (either arrival order)
-    is handed the `version` message side `b` really published, it becomes happy and reports exactly
-    the verifier `HKDF(key, "wormhole:verifier")` of the shared key and `b`'s versions. By symmetry
-    the same holds for `b`, with the same key, hence the same verifier. -/
-theorem match_exchange (C : Crypto) (I : C.Ideal) (a b : Cfg) (ca cb : String) (hr : a.rnd ≠ b.rnd)
-    (hsame : C.nfc ca = C.nfc cb ∧ C.nfc a.appid = C.nfc b.appid) (oa ob : Bool) :
+/-- **Matching codes, end to end.**  NFC-equal (encodable) codes and appids: when side `a` (either
+    arrival order) is handed the `version` message side `b` really published, it becomes happy and
+    reports exactly the verifier `HKDF(key, "wormhole:verifier")` of the shared key and `b`'s versions.
+    By symmetry the same holds for `b`, with the same key, hence the same verifier. -/
+theorem match_exchange (C : Crypto) (I : C.Ideal) (a b : Cfg) (ca cb : PyStr) (hr : a.rnd ≠ b.rnd)
+    (hsame : C.nfc ca = C.nfc cb ∧ C.nfc a.appid = C.nfc b.appid) (oa ob : Bool)
+    (hca : encodable ca = true) (haa : encodable a.appid = true)
+    (hcb : encodable cb = true) (hab : encodable b.appid = true) :
     ∃ key vb sa', sentBody "version" (sideRun C b cb a ca ob).1.out = some vb ∧
       (sideRun C a ca b cb oa).1.wkey = some key ∧ (sideRun C b cb a ca ob).1.wkey = some key ∧
       run C a [.rx ⟨b.side, "version", vb⟩] (sideRun C a ca b cb oa).1 = (sa', none) ∧
       sa'.b = .S2_happy ∧ sa'.r = .S2_verified_key ∧
       sa'.out = (sideRun C a ca b cb oa).1.out ++
         [.wVerifier (C.hkdf key verifierPurpose 32), .wVersions b.versions] := by
-  obtain ⟨ka, kb, hka, hkb, hiff⟩ :=
-    I.pake (toBytes C ca) (toBytes C a.appid) a.rnd (toBytes C cb) (toBytes C b.appid) b.rnd hr
-  have hk : ka = kb := hiff.mpr ⟨(toBytes_eq_iff I _ _).mpr hsame.1, (toBytes_eq_iff I _ _).mpr hsame.2⟩
+  obtain ⟨pwa, ida, pwb, idb, h1, h2, h3, h4⟩ := four_bytes I hca haa hcb hab
+  obtain ⟨ka, kb, hka, hkb, hiff⟩ := I.pake pwa ida a.rnd pwb idb b.rnd hr
+  have hk : ka = kb := hiff.mpr ⟨(toBytes_eq_iff ca cb pwa pwb h1 h3).mpr hsame.1,
+    (toBytes_eq_iff a.appid b.appid ida idb h2 h4).mpr hsame.2⟩
   subst hk
-  have ha := stash_then_code_eq_code_then_pake C a ca b.side _ ka hka
-  have hb := stash_then_code_eq_code_then_pake C b cb a.side _ ka hkb
+  have ea := sideRun_eq C a b ca cb pwa ida pwb idb ka h1 h2 h3 h4 hka oa
+  have eb := sideRun_eq C b a cb ca pwb idb pwa ida ka h3 h4 h1 h2 hkb ob
   have hun := I.unbox_box (phaseKey C ka b.side "version") (natNonce 0) b.versions
   refine ⟨ka, C.box (phaseKey C ka b.side "version") (natNonce 0) b.versions, ?_⟩
   cases oa
-  · refine ⟨{ stHappy C a ca ka b.versions with stash := some (pakeOf C b cb) }, ?_, ?_, ?_, ?_, rfl, rfl, ?_⟩
-    · cases ob <;> simp [sideRun, pakeOf, myPake, hb.1, hb.2, stKey, stCode, sentBody]
-    · simp [sideRun, pakeOf, myPake, ha.2, stKey]
-    · cases ob <;> simp [sideRun, pakeOf, myPake, hb.1, hb.2, stKey]
-    · have hsa : sideRun C a ca b cb false = ({ stKey C a ca ka with stash := some (pakeOf C b cb) }, none) := by
-        simp [sideRun, pakeOf, myPake, ha.2]
-      rw [hsa]
-      simp only [run, seqM, envStep]
-      rw [rxVersion_stKey_stash C a ca b.side ka _ b.versions _ hun]
-    · simp [sideRun, pakeOf, myPake, ha.2, stHappy]
-  · refine ⟨stHappy C a ca ka b.versions, ?_, ?_, ?_, ?_, rfl, rfl, ?_⟩
-    · cases ob <;> simp [sideRun, pakeOf, myPake, hb.1, hb.2, stKey, stCode, sentBody]
-    · simp [sideRun, pakeOf, myPake, ha.1, stKey]
-    · cases ob <;> simp [sideRun, pakeOf, myPake, hb.1, hb.2, stKey]
-    · have hsa : sideRun C a ca b cb true = (stKey C a ca ka, none) := by
-        simp [sideRun, pakeOf, myPake, ha.1]
-      rw [hsa]
-      simp only [run, seqM, envStep]
-      rw [rxVersion_stKey C a ca b.side ka _ b.versions hun]
-    · simp [sideRun, pakeOf, myPake, ha.1, stHappy]
+  · refine ⟨{ stHappy C a ca pwa ida ka b.versions with stash := some (myPake C b pwb idb) }, ?_, ?_, ?_, ?_, rfl, rfl, ?_⟩
+    · rw [eb]; cases ob <;> simp [stKey, stCode, sentBody]
+    · rw [ea]; simp [stKey]
+    · rw [eb]; cases ob <;> simp [stKey]
+    · rw [ea]
+      simp only [Bool.false_eq_true, if_false, run, seqM, envStep]
+      rw [rxVersion_stKey_stash C a ca pwa ida b.side ka _ b.versions _ hun]
+    · rw [ea]; simp [stHappy]
+  · refine ⟨stHappy C a ca pwa ida ka b.versions, ?_, ?_, ?_, ?_, rfl, rfl, ?_⟩
+    · rw [eb]; cases ob <;> simp [stKey, stCode, sentBody]
+    · rw [ea]; simp [stKey]
+    · rw [eb]; cases ob <;> simp [stKey]
+    · rw [ea]
+      simp only [if_true, run, seqM, envStep]
+      rw [rxVersion_stKey C a ca pwa ida b.side ka _ b.versions hun]
+    · rw [ea]; simp [stHappy]
 
 /-! ## non-vacuity: the hypotheses are met by concrete, non-trivial data -/
 
-def cfgA : Cfg := { side := "s0", appid := "app", versions := [1, 2], rnd := [0] }
-def cfgB : Cfg := { side := "s1", appid := "app", versions := [3], rnd := [1] }
+def cfgA : Cfg := { side := "s0", appid := py "app", versions := [1, 2], rnd := [0] }
+def cfgB : Cfg := { side := "s1", appid := py "app", versions := [3], rnd := [1] }
 
 /-- the ideal hypotheses are satisfiable (toy instance with a non-identity normaliser) -/
-example : ∃ C : Crypto, C.Ideal ∧ C.nfc "A\u030a" ≠ "A\u030a" :=
-  ⟨toyCrypto sampleNfc, sampleIdeal, by simp [toyCrypto, sampleNfc]⟩
+example : ∃ C : Crypto, C.Ideal ∧ C.nfc (py "A\u030a") ≠ py "A\u030a" :=
+  ⟨toyCrypto sampleNfc, sampleIdeal, by decide⟩
 
 /-- a matching run and a mismatching run on the toy instance: keys equal resp. different -/
-example : (sideRun (toyCrypto sampleNfc) cfgA "A\u030a" cfgB "\u00c5" true).1.wkey
-        = (sideRun (toyCrypto sampleNfc) cfgB "\u00c5" cfgA "A\u030a" false).1.wkey := by
+example : (sideRun (toyCrypto sampleNfc) cfgA (py "A\u030a") cfgB (py "\u00c5") true).1.wkey
+        = (sideRun (toyCrypto sampleNfc) cfgB (py "\u00c5") cfgA (py "A\u030a") false).1.wkey := by
   decide
-example : (sideRun (toyCrypto sampleNfc) cfgA "4-a" cfgB "4-b" true).1.wkey
-        ≠ (sideRun (toyCrypto sampleNfc) cfgB "4-b" cfgA "4-a" true).1.wkey := by
+example : (sideRun (toyCrypto sampleNfc) cfgA (py "4-a") cfgB (py "4-b") true).1.wkey
+        ≠ (sideRun (toyCrypto sampleNfc) cfgB (py "4-b") cfgA (py "4-a") true).1.wkey := by
+  decide
+/-- … and they do hold keys (the equality above is not `none = none`) -/
+example : (sideRun (toyCrypto sampleNfc) cfgA (py "A\u030a") cfgB (py "\u00c5") true).1.wkey ≠ none := by
+  decide
+
+/-- a refused run on the toy instance: the code with a lone surrogate raises, its peer stays without key -/
+example : (sideRun (toyCrypto sampleNfc) cfgA [0x34, 0x2d, 0xdce9] cfgB (py "4-b") true).2 = some .unicodeEncodeError ∧
+    (sideRun (toyCrypto sampleNfc) cfgB (py "4-b") cfgA [0x34, 0x2d, 0xdce9] true).1.wkey = none := by
   decide
 
 /-- the schedule hypothesis of `mismatch_delivers_nothing_after_key` is met by a real peer message:
